@@ -318,7 +318,46 @@ def fixed_real(fw, kind, role, ser):
                     {"pre": [], "fin": ["raise", ["app", 3, ["val", 500 + j, False, target > L, target]]]}])
     cases.append({"transport": {"kind": kind, "role": role, "ser": ser, "limit": L}, "ecls": [[1, 5]], "ops": ops})
     cases.append(sig_case({"kind": kind, "role": role, "ser": ser, "limit": 512}, coro=(role == "client")))
-    return cases
+    cases.append(tristate_case({"kind": kind, "role": role, "ser": ser, "limit": 512}, coro=(role == "server")))
+    return [norm_case(c) for c in cases]
+
+
+def norm_case(case):
+    """older case files / fixed histories write the INVOCATION details as (caller, receive_progress: bool); spread the
+    'not requested' ones over the two ways of not requesting: option absent (odd request id) / explicitly false"""
+    ops = []
+    for o in case["ops"]:
+        if o[0] == "inv" and isinstance(o[4], int):
+            o = [o[0], o[1], o[2], o[3], [o[4], None, None], True if o[5] else (None if o[1] % 2 else False), o[6]]
+        ops.append(o)
+    return dict(case, ops=ops)
+
+
+def tristate_case(transport, coro=False):
+    """INVOCATION.Details options absent / falsy / set: receive_progress {absent, false, true} x registration with and
+    without details x an endpoint that reports progress whenever details.progress is callable (the documented idiom
+    is exercised by the driver's endpoint: it calls progress and fails if it is None), plus caller / caller_authid
+    (absent, "", "a5") / procedure (absent, given) / timeout (absent, 0, n) in every combination with receive_progress"""
+    V = lambda i: ["val", i, False, False]
+    ops = [["reg", 100, True, coro], ["reg", 101, False, coro]]
+    req = 0
+    idets = [[None, None, None, None], [7, 0, None, 0], [7, 5, 905, 30000], [None, 3, 906, None]]
+    for reg in (100, 101):
+        for rp in (None, False, True):
+            for j, idet in enumerate(idets):
+                req += 1
+                pre = [V(800 + req)] if (j % 2 == 0) else []
+                ops.append(["inv", req, reg, V(3600 + req), idet, rp, {"pre": pre, "fin": ["ret", ["plain", V(850 + req)]]}])
+                if j == 3 and reg == 100:       # a pending endpoint trying progress later
+                    req += 1
+                    k = len([o for o in ops if o[0] == "inv"])          # call index of the invocation added next
+                    ops += [["inv", req, reg, V(3600 + req), idet, rp, {"pre": [], "fin": ["pend"]}], ["turn"],
+                            ["prog", k, V(800 + req)]]
+    ops += [["turn"]]
+    n = len([o for o in ops if o[0] == "inv"])
+    for k in range(n): ops.append(["res", k, ["ok", ["plain", V(9000 + k)]]])
+    ops += [["turn"], ["turn"]]
+    return {"transport": transport, "ecls": [[1, 5]], "ops": ops}
 
 
 def sig_case(transport, coro=False):
@@ -457,7 +496,7 @@ def oracle(fw, case, log):
             o = inv_by_arg.get(a[4][1])
             if o is None or a[2] in interrupted or len(acc_by_req.get(a[2], [])) != 1: continue
             pre = o[6]["pre"]
-            if pre and not (a[6] and a[7]): continue
+            if pre and not (a[6] is True and a[7]): continue
             if any(pp[0] == "val" and (pp[2] or pp[3]) for pp in pre): continue
             f, val = o[6]["fin"], None
             if f[0] == "ret": val = f[1]
@@ -485,8 +524,11 @@ def oracle(fw, case, log):
         if e[0] == "sent" and e[1][0] == "yield" and e[1][4]:
             req = e[1][1]
             before = [a for a in acc if log.index(a) < i and a[2] == req]
-            if not any(a[6] and a[7] for a in before):
-                viol.append(("session.progress/not-requested", f"progressive YIELD for request {req} although the caller did not ask (or no details)", req))
+            if not any(a[6] is True and a[7] for a in before):      # receive_progress must be TRUE (not merely present)
+                why = ("no-details-argument" if before and not any(a[7] for a in before) else
+                       "receive_progress=false" if any(a[6] is False for a in before) else
+                       "receive_progress-absent" if before else "no-invocation")
+                viol.append((f"session.progress/not-requested/{why}", f"progressive YIELD for request {req} although the caller did not ask ({why})", req))
             if len(acc_by_req.get(req, [])) == 1 and any(j < i for j in term.get(req, [])):
                 viol.append(("session.progress/after-terminal-reply", f"progressive YIELD for request {req} sent after its terminal reply", req))
     # 3. the endpoint sees exactly the caller's arguments (+ details iff asked)
@@ -499,7 +541,8 @@ def oracle(fw, case, log):
             good = a is not None and o is not None and e[2] == o[1] and e[3] == o[2] and e[4] == o[3]
             if good:
                 wants = a[7]
-                good = (e[5] is None) == (not wants) and (e[5] is None or (e[5][0] == o[4] and e[5][1] == (bool(o[5]) and wants)))
+                exp = [o[4][0], o[4][1], o[4][2] if o[4][2] is not None else o[2]]     # procedure defaults to the registration's
+                good = (e[5] is None) == (not wants) and (e[5] is None or (e[5][0] == exp and e[5][1] == (o[5] is True and wants)))
             if not good:
                 viol.append(("session.invocation/argument-fidelity", f"endpoint call {e} does not match the INVOCATION {o}", e[2]))
     for a in acc:
@@ -586,9 +629,10 @@ def run(ck):
         cases, labels = [], []
         for name, j in load_corpus():
             if j.get("fw") in (None, fw):
-                cases.append(j["case"]); labels.append("corpus:" + name)
+                cases.append(norm_case(j["case"])); labels.append("corpus:" + name)
         for coro in (False, True):
-            cases.append(sig_case({"kind": "fake", "tbl": OK_TBL}, coro)); labels.append("fake-signatures")
+            cases.append(norm_case(sig_case({"kind": "fake", "tbl": OK_TBL}, coro))); labels.append("fake-signatures")
+            cases.append(tristate_case({"kind": "fake", "tbl": OK_TBL}, coro)); labels.append("fake-tristate")
         rng = ck.rng("fake/" + fw)
         for i in range(n_fake):
             cases.append(gen_fake(rng, fw, rng.choice([4, 6, 8, 10, 12, 16] if quick else [4, 8, 12, 16, 24])))
@@ -681,7 +725,7 @@ def run(ck):
 def replay(path):
     j = json.load(open(path))
     r = j.get("replay", j)
-    case = r["case"]
+    case = norm_case(r["case"])
     ck = vlib.Check("C10", "quick", 1)
     print("case:", json.dumps(case))
     rc = 0
